@@ -9,6 +9,7 @@ import Mochi.Driver.Codec
 import Mochi.Driver.Broker
 import Mochi.Driver.BrokerSpec
 import Mochi.Driver.Reader
+import Mochi.Driver.Hostile
 open Mochi.Driver
 
 structure DState where
@@ -16,6 +17,7 @@ structure DState where
   ledger : LState := {}
   bufpool : BState := {}
   broker : BkState := {}
+  hostile : HState := {}
 
 /-- input line: `op args…<TAB>implementation output`;
     answer line: `model output<TAB>spec verdict<TAB>signature`; unknown op => `bad-op` -/
@@ -41,8 +43,8 @@ def answer (st : DState) (line : String) : DState × String :=
           match bufpoolOp st.bufpool impl ws with
           | some (b', r) => ({ st with bufpool := b' }, fmt r)
           | none =>
-            match brokerOpV st.broker impl ws with
-            | some (k', r) => ({ st with broker := k' }, fmt r)
+            match hostileOpV st.broker st.hostile impl ws with
+            | some (k', h', r) => ({ st with broker := k', hostile := h' }, fmt r)
             | none => (st, "bad-op")
 
 partial def loop (h : IO.FS.Stream) (out : IO.FS.Stream) (st : DState) : IO Unit := do
